@@ -286,6 +286,11 @@ func (fa *FuncAnalysis) Reach(target func(ssa.Instruction) bool, o ReachOpts) ([
 					return true
 				}
 			}
+			for _, c := range fa.p.AlwaysCut {
+				if c(l) {
+					return true
+				}
+			}
 		}
 		return false
 	}
